@@ -13,7 +13,7 @@ Program representation = the s-expression fed to the model, nested Python lists 
   expr  ['n', k] | ['v', x] | ['+', a, b] | ['u', e]
   stmt  'skip' | ['seq', s...] | ['let', x, e] | ['set', x, e] | ['pr', e] | ['blk', s] | ['if', c, t, e]
       | ['mac', s] | ['us', s]
-Names are decimal strings; names < K (= 100) are source names, x + K*k is the renaming of the k-th expansion.
+Names are decimal strings; names < K (= 100) are source names, x + K*2^j are the renamings made by expand_all.
 """
 import os
 import re
@@ -483,10 +483,10 @@ def run_cases(ctx, elk, m, cases, tag):
         if (om[0], om[1] if om[0] != "R" else None) != (oh[0], oh[1] if oh[0] != "R" else None):
             bad.append(("macro program vs hand expansion (both on elk)", om))
         for o in (om, oh):
-            if o[0] == "R":
-                odd = [r for r in o[1] if r not in EXPECTED_REASONS]
-                if odd:
-                    bad.append(("unexpected diagnostic " + odd[0], o))
+            # a rejection must be about an unresolvable name; follow-up diagnostics of the same program (an untyped
+            # local assigned later...) are not compared: only the verdict is the property's observable
+            if o[0] == "R" and not any(r in EXPECTED_REASONS for r in o[1]):
+                bad.append(("unexpected diagnostic " + o[1][0], o))
         if not bad:
             continue
         st["mismatches"] += 1
@@ -544,12 +544,14 @@ def run(ctx):
         "mode): locals of an expansion are unresolvable after it; hygienic resolution below a boundary never reaches "
         "past it and a body without unhygienic splices returns the caller's environment unchanged; caller locals are "
         "reached exactly by unhygienic resolution; a boundary is equal (verdict, output, final caller environment) to "
-        "a plain block around the body with the expansion's locals renamed by any fresh injective renaming. NOT proved: "
+        "a plain block around the body with the expansion's locals renamed by any fresh injective renaming, and so is the "
+        "whole program with every boundary expanded that way (expand_all); a program "
+        "accepted by the checker mode never meets an unresolved name in the execution mode. NOT proved: "
         "that types/checker and the bytecode compiler implement this model - that is compared on every run by executing "
         "seeded macro programs with systematically colliding names, and their hand-written expansions produced by the "
-        "extracted `expand_all`, with the real elk binary (three-way comparison with the extracted model). The chaining "
-        "of single-boundary equivalences over a whole program (expand_all) is not proved; the driver re-checks it on "
-        "the model for every case. Not modelled: macro parameters/unquoted arguments (an argument spliced with "
+        "extracted `expand_all` (proved equal to the macro program on the model, C31_expand_all_equiv; the driver also "
+        "re-checks that on the model for every case), with the real elk binary (three-way comparison with the "
+        "extracted model). Not modelled: macro parameters/unquoted arguments (an argument spliced with "
         "unquote is part of the expansion and resolves hygienically, by design), type and pattern macros, closures and "
         "methods inside expansions, loops.")
     ctx.trusted_base += [
@@ -561,7 +563,7 @@ def run(ctx):
     m = vlib.build_model_exact("C31")
     rng = ctx.rng(STREAM)
     corpus = load_corpus(os.path.join(vlib.ROOT, "corpus", "C31.prog.txt"))
-    nfam = ctx.n(10, 400)
+    nfam = ctx.n(10, 150)
     cases = []
     dist = {}
     for i in range(nfam):
